@@ -97,6 +97,14 @@ func registerHarnessIntrinsics() {
 		},
 		"verifDependsOn":  hDependsOn,
 		"verifUF":         hUF,
+		"verifUFv":       hUFv,
+		"verifHTTP":      hHTTP,
+		"verifHTTPStatus": func(e *Exec, a []Value, s *ssa.CallCommon) Value { return e.httpOf(a[0]).status },
+		"verifHTTPSets": func(e *Exec, a []Value, s *ssa.CallCommon) Value {
+			st := e.httpOf(a[0])
+			return &TupleV{E: []Value{e.c64(int64(st.statusSets)), e.c64(int64(st.bodySets))}}
+		},
+		"verifHTTPResp": hHTTPResp,
 		"verifJSString": func(e *Exec, a []Value, s *ssa.CallCommon) Value {
 			return e.newJS(&jsVal{what: "arg", typ: e.c64(4), str: a[0].(*StrV)})
 		},
@@ -943,4 +951,64 @@ func hJSResult(e *Exec, a []Value, s *ssa.CallCommon) Value {
 		str = jv.str
 	}
 	return &TupleV{E: []Value{jv.typ, b, str}}
+}
+
+// verifUFv(name, n, bytes, nums...): n bytes of an uninterpreted function of the arguments.
+func hUFv(e *Exec, a []Value, s *ssa.CallCommon) Value {
+	name := e.mustConcreteString(a[0], "UF name")
+	n := e.concLen(a[1].(*Term), "UF result length")
+	key := e.sliceBytes(a[2].(*SliceV))
+	args := append([]*Term{}, key...)
+	for _, v := range ifaceArgsU64(e, a[3]) {
+		args = append(args, v)
+	}
+	ts := make([]*Term, n)
+	for i := range ts {
+		ts[i] = e.tb.UF(fmt.Sprintf("%s_k%d_a%d_b%d", name, len(key), len(args)-len(key), i), 8, args...)
+	}
+	arr := e.mkBytes(ts, e.newObj("intrinsic", "uf-"+name))
+	ln := e.c64(int64(n))
+	return &SliceV{arr: arr, off: e.c64(0), len: ln, cap: ln}
+}
+
+func ifaceArgsU64(e *Exec, v Value) []*Term {
+	s := v.(*SliceV)
+	n := e.concLen(s.len, "variadic length")
+	out := make([]*Term, n)
+	for i := 0; i < n; i++ {
+		out[i] = e.arrGet(s.arr, e.tb.Add(s.off, e.c64(int64(i)))).(*Term)
+	}
+	return out
+}
+
+// verifHTTP(method, path, queryKey, queryVal string, req any, failDecode bool) *fasthttp.RequestCtx
+func hHTTP(e *Exec, a []Value, s *ssa.CallCommon) Value {
+	fn := s.StaticCallee()
+	pt := fn.Signature.Results().At(0).Type().(*types.Pointer)
+	c := e.newCell(pt.Elem(), e.newObj("nondet", "RequestCtx"), nil)
+	st := &httpState{method: a[0].(*StrV), path: a[1].(*StrV), query: map[string]*StrV{}, failDecode: a[5].(*Term), status: e.c64(200)}
+	if k, ok := e.concreteString(a[2].(*StrV)); ok && k != "" {
+		st.query[k] = a[3].(*StrV)
+	}
+	if iv, ok := a[4].(*IfaceV); ok && iv.typ != nil {
+		st.reqValue = iv
+	}
+	e.httpStates[c] = st
+	return &PtrV{c: c}
+}
+
+// verifHTTPResp(ctx, out any) bool: copies the marshalled response value into *out when it has that type
+func hHTTPResp(e *Exec, a []Value, s *ssa.CallCommon) Value {
+	st := e.httpOf(a[0])
+	out := a[1].(*IfaceV)
+	op, ok := out.v.(*PtrV)
+	if !ok || op.c == nil {
+		return e.tb.False()
+	}
+	iv, ok := st.body.(*IfaceV)
+	if !ok || iv.typ == nil || !types.Identical(iv.typ, op.c.typ) {
+		return e.tb.False()
+	}
+	e.storeTrail(op.c, iv.v)
+	return e.tb.True()
 }
